@@ -132,11 +132,21 @@ static int is_red(const struct cstl_bintree_node * bn)
     return rn->c == CSTL_RBTREE_COLOR_R;
 }
 
+/*
+ * Key object 1 (the second object of key 0) is the NULL pointer: the map never
+ * dereferences keys, it only hands them to the caller's comparison function,
+ * so NULL is a legitimate key for a comparator that gives it a meaning (here:
+ * key value 0).  Values are never NULL, so an entry never looks like the end
+ * iterator.
+ */
+#define KO_NULL 1
+#define KP(ko) ((ko) == KO_NULL ? NULL : (void *)&kobj[ko])
+
 static long kp_id(const void * p)
 {
     ptrdiff_t d = (const char *)p - (const char *)kobj;
     if (p == NULL) {
-        return -1;
+        return KO_NULL;
     }
     if (p == &probe) {
         return -2;
@@ -327,8 +337,9 @@ static int cmp_rb(const void * a, const void * b, void * p)
 
 static int cmp_key(const void * a, const void * b, void * p)
 {
+    const int x = a ? *(const int *)a : 0, y = b ? *(const int *)b : 0;
     h_priv_check(p, 3);
-    return (*(const int *)a > *(const int *)b) - (*(const int *)a < *(const int *)b);
+    return (x > y) - (x < y);
 }
 
 #define MAXEV (3 * NE + 8)
@@ -528,7 +539,7 @@ static void op_map(int argc, char ** argv)
         }
         h_alloc_plan(a ? "1" : "0");
         h_alloc_arm(1);
-        r = cstl_map_insert(&map, &kobj[ko], &vobj[v], &it);
+        r = cstl_map_insert(&map, KP(ko), &vobj[v], &it);
         h_alloc_arm(0);
         mlog_alloc();
         outf("r=%d it=", r);
